@@ -68,6 +68,7 @@ class RunResult:
         self.probe("natural_open_failure", c[1])
         self.probe("exit_called", c[16])
         self.probe("quit_ignored", c[19])
+        self.probe("real_files_created_outside_simfs", c[63] if len(c) > 63 else 0)
 
 
 class Engine:
